@@ -22,7 +22,13 @@ Modelled as coded:
     `frc_spring || frc_damper`;
   * gravity compensation force of a body: `gravity * (-(mass * gravcomp))`, applied at the body COM (the mapping
     through the Jacobian is `mj_applyFT`: modelled as the dot products with the Jacobian columns);
-  * `qfrc_passive = qfrc_spring + qfrc_damper (+ qfrc_gravcomp on dofs whose joint has no actgravcomp)`.
+  * `qfrc_passive = qfrc_spring + qfrc_damper (+ qfrc_gravcomp on dofs whose joint has no actgravcomp)`;
+  * the GATES that decide whether a term is computed at all (section "gating" below): the model constants
+    `ngravcomp` / `flg_gravcomp` as `setFixed` (engine_setconst.c, reached from `mj_compile` and `mj_setConst`) derives
+    them from `body_gravcomp`, the entry test and the body loop of `mj_gravcomp` with its return value `has_gravcomp`
+    (which decides whether `mj_passive` adds `qfrc_gravcomp`), the same entry test in front of the actuator-level
+    gravity compensation of `mj_fwdActuation`, the early return of `mj_passive` when both mjDSBL_SPRING and
+    mjDSBL_DAMPER are set, and the `enbl_spring` / `enbl_damper` switches of `mj_springdamper`.
 Not modelled: flex elasticity, fluid forces, passive contacts, adhesion, plugins / callbacks, sleeping.
 -/
 import MjProof.Num
@@ -140,6 +146,95 @@ def passiveSum (spring damper : α) (gravcomp : Option α) : α :=
   match gravcomp with
   | none => spring + damper
   | some g => (spring + damper) + g
+
+/-! ### gating: which terms are computed at all
+
+`mj_passive` clears the four vectors and returns when both mjDSBL_SPRING and mjDSBL_DAMPER are set; otherwise
+`mj_springdamper` runs with `enbl_spring = !DISABLED(SPRING)`, `enbl_damper = !DISABLED(DAMPER)`, then `mj_gravcomp`,
+whose entry test reads the model constant `flg_gravcomp` that `setFixed` derived from `body_gravcomp`. -/
+
+/-- `setFixed` (engine_setconst.c): `ngravcomp += (body_gravcomp[i] > 0)` over ALL bodies (the world included) -/
+def ngravcomp (gc : List α) : Nat := (gc.filter (fun c => decide (MjNum.ofInt 0 < c))).length
+
+/-- `m->flg_gravcomp = (ngravcomp > 0)` -/
+def flgGravcomp (gc : List α) : Bool := decide (0 < ngravcomp gc)
+
+/-- entry test of `mj_gravcomp` (and of the actuator-level gravity compensation in `mj_fwdActuation`):
+    `flg_gravcomp && !DISABLED(GRAVITY) && norm3(gravity) != 0` -/
+def gravcompEntry (flg dsblGravity : Bool) (g : α × α × α) : Bool :=
+  flg && !dsblGravity && !(MjNum.beq (mju_norm3 g.1 g.2.1 g.2.2) (MjNum.ofInt 0))
+
+/-- one iteration of the body loop of `mj_gravcomp`: `if (body_gravcomp[i]) { force = gravity * -(mass*gravcomp); apply }` -/
+def gravcompBody (g : α × α × α) (mass gc : α) : Option (α × α × α) :=
+  if MjNum.beq gc (MjNum.ofInt 0) then none else some (gravcompForce g mass gc)
+
+/-- `mj_gravcomp`: `bodies` lists (mass, gravcomp) of ALL bodies, the world first (the loop starts at body 1).
+    Returns (`has_gravcomp`, the force applied at the COM of each body 1.., `none` = nothing applied). -/
+def gravcompStage (flg dsblGravity : Bool) (g : α × α × α) (bodies : List (α × α)) : Bool × List (Option (α × α × α)) :=
+  if gravcompEntry flg dsblGravity g then
+    let fs := (bodies.drop 1).map (fun b => gravcompBody g b.1 b.2)
+    (fs.any Option.isSome, fs)
+  else (false, (bodies.drop 1).map (fun _ => none))
+
+/-- the force a body receives, `none` read as "no force" -/
+def appliedForce (f : Option (α × α × α)) : α × α × α :=
+  match f with
+  | some v => v
+  | none => (MjNum.ofInt 0, MjNum.ofInt 0, MjNum.ofInt 0)
+
+/-- `mj_passive` computes anything at all (not both of mjDSBL_SPRING, mjDSBL_DAMPER set) -/
+def passiveEntry (dsblSpring dsblDamper : Bool) : Bool := !(dsblSpring && dsblDamper)
+
+/-- does `mj_passive` add `qfrc_gravcomp` into `qfrc_passive` (on dofs without actgravcomp): derived from the model
+    constants only — `flg_gravcomp` as `setFixed` computes it from the `body_gravcomp` column of `bodies` -/
+def passiveHasGravcomp (dsblSpring dsblDamper dsblGravity : Bool) (g : α × α × α) (bodies : List (α × α)) : Bool :=
+  passiveEntry dsblSpring dsblDamper &&
+    (gravcompStage (flgGravcomp (bodies.map (fun b => b.2))) dsblGravity g bodies).1
+
+/-- the joint-spring loop of `mj_springdamper` runs (`enbl_spring`, inside a running `mj_passive`) -/
+def springOn (dsblSpring dsblDamper : Bool) : Bool := passiveEntry dsblSpring dsblDamper && !dsblSpring
+
+/-- the dof-damper loop of `mj_springdamper` runs -/
+def damperOn (dsblSpring dsblDamper : Bool) : Bool := passiveEntry dsblSpring dsblDamper && !dsblDamper
+
+/-- slide / hinge spring under the switches (the entry keeps its cleared value when the loop does not run) -/
+def jointSpringGated (dsblSpring dsblDamper : Bool) (k p0 p1 q qspring : α) : α :=
+  if springOn dsblSpring dsblDamper then jointSpring k p0 p1 q qspring else MjNum.ofInt 0
+
+/-- free-joint translational spring under the switches, with the skip test of the joint loop -/
+def freeLinSpringGated (dsblSpring dsblDamper : Bool) (k p0 p1 : α) (p ps acc : α × α × α) : α × α × α :=
+  if springOn dsblSpring dsblDamper && !(allZero k p0 p1) then freeLinSpring k p0 p1 p ps acc else acc
+
+/-- ball joint / rotational part of a free joint under the switches, with the skip test of the joint loop -/
+def ballSpringGated (dsblSpring dsblDamper : Bool) (k p0 p1 : α) (q qs : α × α × α × α) (acc : α × α × α) : α × α × α :=
+  if springOn dsblSpring dsblDamper && !(allZero k p0 p1) then ballSpring k p0 p1 q qs acc else acc
+
+/-- dof damper under the switches -/
+def dofDamperGated (dsblSpring dsblDamper : Bool) (b p0 p1 v : α) : α :=
+  if damperOn dsblSpring dsblDamper then dofDamper b p0 p1 v else MjNum.ofInt 0
+
+/-- tendon spring-damper under the switches, as coded: `stiffness = 0, spoly = NULL` without `enbl_spring`,
+    `damping = 0, dpoly = {0}` without `enbl_damper`; skipped when
+    `stiffness == 0 && (!enbl_spring || isZero(spoly)) && damping == 0 && isZero(dpoly)`;
+    `frc_spring = enbl_spring ? ... : 0`, `frc_damper = enbl_damper ? ... : 0`; applied only `if (frc_spring || frc_damper)` -/
+def tendonForcesGated (dsblSpring dsblDamper : Bool) (k p0 p1 b d0 d1 length lower upper v : α) : Option (α × α) :=
+  if !(passiveEntry dsblSpring dsblDamper) then none
+  else
+    let z : α := MjNum.ofInt 0
+    let stiffness := if dsblSpring then z else k
+    let damping := if dsblDamper then z else b
+    let dp0 := if dsblDamper then z else d0
+    let dp1 := if dsblDamper then z else d1
+    let springZero := MjNum.beq stiffness z && (dsblSpring || (MjNum.beq p0 z && MjNum.beq p1 z))
+    if springZero && allZero damping dp0 dp1 then none
+    else
+      let fs := if dsblSpring then z else tendonSpring stiffness p0 p1 length lower upper
+      let fd := if dsblDamper then z else tendonDamper damping dp0 dp1 v
+      if MjNum.beq fs z && MjNum.beq fd z then none else some (fs, fd)
+
+/-- `qfrc_passive[i]` under the top-level switch (the vector stays cleared when mj_passive returns early) -/
+def passiveSumGated (dsblSpring dsblDamper : Bool) (spring damper : α) (gravcomp : Option α) : α :=
+  if passiveEntry dsblSpring dsblDamper then passiveSum spring damper gravcomp else MjNum.ofInt 0
 
 /-- power delivered by a generalized force: `sum_i qvel_i * f_i` -/
 def power : List α → List α → α
